@@ -41,6 +41,28 @@ def base_pars(info, rng):
     return pars
 
 
+def nonzero_defaults(info, pars, rng):
+    """Parameters whose default is 0 (interface roughness, penetration, offsets ...) never move under a multiplicative
+    jitter: give each of them a value well inside its limits.  Returns the names changed."""
+    changed = []
+    for p in info.parameters.call_parameters:
+        if p.name not in pars or p.default != 0 or p.choices or p.type in ("orientation", "sld", "magnetic") or p.length != 1:
+            continue
+        if p.name in ("background",) or p.name.endswith("_M0") or p.name.startswith("up_"):
+            continue
+        lo, hi = p.limits
+        if p.units == "Ang":
+            v = rng.choice([rng.uniform(0.3, 3.0), rng.uniform(3.0, 40.0)])
+        else:
+            v = rng.uniform(0.05, 0.9)
+        if hi < float("inf"):
+            v = min(v, lo + 0.9 * (hi - lo)) if lo > -float("inf") else min(v, hi)
+        v = max(v, lo)
+        pars[p.name] = float(v)
+        changed.append(p.name)
+    return changed
+
+
 def gen_case(model, info, dim, rng, cap, kinds, force_kind=None):
     """Return (pars, cutoff, mode, tags)."""
     pt = info.parameters
